@@ -122,31 +122,36 @@ Lemma cas_get_put_new d b st : cas_get st d = None -> cas_get (cas_put d b st) d
 Proof. unfold cas_put. intro E. rewrite E. simpl. rewrite str_eqb_refl. reflexivity. Qed.
 
 (* ------------------------------------------------------------------ the error channel *)
-(* from k pending senders and an empty buffer of capacity cap, every sender gets through
-   (so that Wait can return) exactly when k <= cap *)
-Lemma chan_run_spec fuel : forall p b cap, p <= fuel ->
-  chan_released (chan_run fuel (mkChan p b cap)) = Nat.leb (p + b) cap || Nat.eqb p 0.
+(* a sender is never blocked: whatever the capacity and the buffer, every pending sender gets
+   through, so Wait can return *)
+Lemma chan_run_released fuel : forall p b cap, p <= fuel ->
+  chan_released (chan_run fuel (mkChan p b cap)) = true.
 Proof.
   induction fuel as [|f IH]; intros p b cap Hp.
-  - assert (p = 0) by lia. subst. simpl. rewrite orb_true_r. reflexivity.
-  - destruct p as [|p].
-    + simpl. rewrite orb_true_r. reflexivity.
-    + cbn [chan_run chan_step ch_pending ch_buffered ch_cap].
-      destruct (Nat.ltb_spec b cap) as [Hlt|Hge].
-      * rewrite IH by lia. replace (p + S b) with (S p + b) by lia.
-        destruct (Nat.leb_spec (S p + b) cap) as [Hle|Hgt]; [reflexivity|].
-        cbn [orb]. destruct p; [lia | reflexivity].
-      * unfold chan_released. cbn [ch_pending Nat.eqb]. rewrite orb_false_r.
-        symmetry. apply Nat.leb_gt. lia.
+  - assert (p = 0) by lia. subst. reflexivity.
+  - destruct p as [|p]; [reflexivity|].
+    cbn [chan_run chan_step ch_pending ch_buffered ch_cap].
+    destruct (Nat.ltb b cap); apply IH; lia.
 Qed.
 
-Lemma chan_all_sent_iff k cap :
-  chan_released (chan_run k (mkChan k 0 cap)) = true <-> k <= cap.
+(* the buffer ends with as many errors as were offered, up to its capacity *)
+Lemma chan_run_buffered fuel : forall p b cap, p <= fuel -> b <= cap ->
+  ch_buffered (chan_run fuel (mkChan p b cap)) = Nat.min (p + b) cap.
 Proof.
-  rewrite chan_run_spec by lia. rewrite Nat.add_0_r. split.
-  - intro Hb. apply orb_true_iff in Hb as [Hb|Hb]; [apply Nat.leb_le, Hb | apply Nat.eqb_eq in Hb; lia].
-  - intro Hle. apply orb_true_iff. left. apply Nat.leb_le, Hle.
+  induction fuel as [|f IH]; intros p b cap Hp Hb.
+  - assert (p = 0) by lia. subst. cbn [chan_run ch_buffered Nat.add]. lia.
+  - destruct p as [|p]; [cbn [chan_run chan_step ch_pending ch_buffered Nat.add]; lia|].
+    cbn [chan_run chan_step ch_pending ch_buffered ch_cap].
+    destruct (Nat.ltb_spec b cap) as [Hlt|Hge]; rewrite IH by lia; lia.
 Qed.
+
+Theorem chan_never_blocks k cap : chan_released (chan_run k (mkChan k 0 cap)) = true.
+Proof. apply chan_run_released. lia. Qed.
+
+(* with room for one error, an error is found after Wait exactly when some download failed *)
+Theorem chan_error_kept k cap : 0 < cap ->
+  (ch_buffered (chan_run k (mkChan k 0 cap)) = 0 <-> k = 0).
+Proof. intro Hc. rewrite chan_run_buffered by lia. lia. Qed.
 
 (* one-level projections of a directory's entries *)
 Fixpoint files_in (es : list (str * node)) : list (str * str * bool) :=
@@ -225,46 +230,73 @@ Section Generic.
       rewrite (IH child es1 k1 El Er). rewrite (IHl rest k2 eq_refl). reflexivity.
   Qed.
 
-  (* C04, restore part, guarded: with every referenced file blob present the call returns *)
-  Theorem restore_terminates_blobs_present maxdepth m st :
-    blobs_present m st -> load_tree_msg maxdepth m st <> Stuck.
+  (* load_tree_msg characterised once: run on the channel system, "Wait returns, first buffered
+     error wins" collapses to "Error iff some download failed" *)
+  Lemma load_tree_msg_spec maxdepth m st :
+    load_tree_msg maxdepth m st =
+    match load_dir maxdepth (map (fun c => (child_key c, c)) (tm_children m)) st (tm_root m) with
+    | None => Error
+    | Some (es, failed) => if Nat.eqb failed 0 then Done (Dir es) else Error
+    end.
   Proof.
-    intro Hp. unfold Tree.load_tree_msg.
-    destruct (load_dir maxdepth _ st (tm_root m)) as [[es k]|] eqn:E; [|discriminate].
-    assert (k = 0).
-    { eapply (load_dir_no_failure st _ (tm_root m :: tm_children m)); [| |left; reflexivity|exact E].
-      - intros k0 v Hin. apply in_map_iff in Hin as [c [Hc Hin]]. inversion Hc; subst. right; exact Hin.
-      - intros d Hd f Hf. exact (Hp d Hd f Hf). }
-    subst. simpl. discriminate.
+    unfold Tree.load_tree_msg.
+    destruct (load_dir maxdepth _ st (tm_root m)) as [[es k]|]; [|reflexivity].
+    cbv zeta. rewrite chan_never_blocks.
+    destruct (Nat.eqb_spec k 0) as [E|E].
+    - subst k. reflexivity.
+    - destruct (Nat.eqb_spec (ch_buffered (chan_run k (mkChan k 0 err_chan_cap))) 0) as [E2|E2]; [|reflexivity].
+      apply chan_error_kept in E2; [contradiction | unfold err_chan_cap; lia].
   Qed.
 
-  (* ... and exactly when it does not: more failing downloads than distinct sub-directories *)
-  Theorem restore_stuck_iff maxdepth m st :
-    load_tree_msg maxdepth m st = Stuck <->
-    exists k, load_failures H ser_dir maxdepth m st = Some k /\ length (tm_children m) < k.
+  (* C04, restore part: after the tree blob was read, the call returns, whatever the message and
+     whatever is (not) in the store *)
+  Theorem restore_terminates_msg maxdepth m st : load_tree_msg maxdepth m st <> Stuck.
   Proof.
-    unfold Tree.load_tree_msg, load_failures.
-    destruct (load_dir maxdepth _ st (tm_root m)) as [[es k]|]; split.
-    - destruct (Nat.eqb k 0) eqn:E0; [discriminate|].
-      destruct (Nat.leb_spec k (length (tm_children m))); [discriminate|]. intros _. exists k. split; [reflexivity | assumption].
-    - intros [k' [Hk Hlt]]. inversion Hk; subst k'.
-      destruct (Nat.eqb_spec k 0); [lia|]. destruct (Nat.leb_spec k (length (tm_children m))); [lia | reflexivity].
-    - discriminate.
-    - intros [k [Hk _]]. discriminate.
+    rewrite load_tree_msg_spec.
+    destruct (load_dir maxdepth _ st (tm_root m)) as [[es k]|]; [|discriminate].
+    destruct (Nat.eqb k 0); discriminate.
   Qed.
 
-  (* the Stuck clause agrees with the channel transition system *)
-  Theorem restore_stuck_is_channel_deadlock maxdepth m st k :
+  Lemma fetch_terminates maxdepth ref st : fetch_tree H ser_dir deser_tree maxdepth ref st <> Stuck.
+  Proof.
+    unfold fetch_tree. destruct (cas_get st ref) as [b|]; [|discriminate].
+    destruct (deser_tree b) as [m|]; [|discriminate]. apply restore_terminates_msg.
+  Qed.
+
+  (* ... and so does the whole Load, from every prior state of the destination *)
+  Theorem restore_terminates maxdepth ref st dest :
+    load_tree H ser_dir ser_tree deser_tree maxdepth ref st dest <> Stuck.
+  Proof.
+    destruct dest as [| |c x|es]; cbn [load_tree]; try apply fetch_terminates.
+    destruct (names_ok (Dir es) && str_eqb (tree_digest H ser_dir ser_tree (Dir es)) ref);
+      [discriminate | apply fetch_terminates].
+  Qed.
+
+  (* a failed download surfaces as an error of Load (the build falls back to executing the
+     target), and nothing else does once the recursion itself went through *)
+  Theorem restore_error_iff_failure maxdepth m st k :
     load_failures H ser_dir maxdepth m st = Some k ->
-    (load_tree_msg maxdepth m st = Stuck <->
-     chan_released (chan_run k (mkChan k 0 (length (tm_children m)))) = false).
+    (load_tree_msg maxdepth m st = Error <-> 0 < k).
   Proof.
-    intro Hk. rewrite restore_stuck_iff. split.
-    - intros [k' [Hk' Hlt]]. rewrite Hk in Hk'. inversion Hk'; subst k'.
-      destruct (chan_released _) eqn:E; [|reflexivity]. apply chan_all_sent_iff in E. lia.
-    - intro Hf. exists k. split; [exact Hk|].
-      destruct (Nat.le_gt_cases k (length (tm_children m))) as [Hle|Hgt]; [|exact Hgt].
-      apply chan_all_sent_iff in Hle. congruence.
+    unfold load_failures. rewrite load_tree_msg_spec.
+    destruct (load_dir maxdepth _ st (tm_root m)) as [[es k']|]; [|discriminate].
+    intro Hk. inversion Hk; subst k'. destruct (Nat.eqb_spec k 0) as [E|E]; split; intro Hx.
+    - discriminate.
+    - lia.
+    - lia.
+    - reflexivity.
+  Qed.
+
+  (* with every referenced file blob present no download fails *)
+  Theorem restore_no_failure_blobs_present maxdepth m st k :
+    blobs_present m st -> load_failures H ser_dir maxdepth m st = Some k -> k = 0.
+  Proof.
+    intros Hp. unfold load_failures.
+    destruct (load_dir maxdepth _ st (tm_root m)) as [[es k']|] eqn:E; [|discriminate].
+    intro Hk. inversion Hk; subst k'.
+    eapply (load_dir_no_failure st _ (tm_root m :: tm_children m)); [| |left; reflexivity|exact E].
+    - intros k0 v Hin. apply in_map_iff in Hin as [c [Hc Hin]]. inversion Hc; subst. right; exact Hin.
+    - intros d Hd f Hf. exact (Hp d Hd f Hf).
   Qed.
 
   (* ---------------- file outputs *)
@@ -297,37 +329,31 @@ Section Injective.
     - simpl. rewrite str_eqb_refl. reflexivity.
   Qed.
 
-  (* file outputs, guarded: the content always comes back; the exec bit only when the path already
-     carries it (or none is wanted and the path is absent); no directory may sit at the path *)
-  Theorem file_roundtrip_guarded c x st dest :
+  (* file outputs: content AND executable bit come back, from every prior state of the path in which
+     a restore is possible at all (no directory sitting at the path: C06-F3) *)
+  Theorem file_roundtrip c x st dest :
     cas_sound H st ->
     file_restore_possible dest = true ->
-    file_restore_exec dest = x ->
-    let '(st', d) := file_write H c x st in
-    file_load H d st' dest = Done (File c x).
+    let '(st', m) := file_write H c x st in
+    file_load H m st' dest = Done (File c x).
   Proof.
-    intros Hs Hp Hx. unfold file_write, file_load, dig. simpl.
-    destruct dest as [| |c' x'|es]; simpl in *; try discriminate.
-    - rewrite (cas_written_get c st Hs). subst; reflexivity.
-    - rewrite (cas_written_get c st Hs). subst; reflexivity.
-    - subst x'. destruct (str_eqb (H c') (H c)) eqn:E.
-      + apply str_eqb_eq, H_inj in E. subst; reflexivity.
-      + rewrite (cas_written_get c st Hs). reflexivity.
-  Qed.
-
-  (* the content part holds for every prior state in which a restore is possible at all *)
-  Theorem file_content_restored c x st dest :
-    cas_sound H st -> file_restore_possible dest = true ->
-    let '(st', d) := file_write H c x st in
-    file_load H d st' dest = Done (File c (file_restore_exec dest)).
-  Proof.
-    intros Hs Hp. unfold file_write, file_load, dig. simpl.
-    destruct dest as [| |c' x'|es]; simpl in *; try discriminate.
+    intros Hs Hp. unfold file_write, file_load, dig. cbn [fm_digest fm_exec d_hash].
+    destruct dest as [| |c' x'|es]; cbn [file_restore_possible] in Hp; try discriminate.
     - rewrite (cas_written_get c st Hs). reflexivity.
     - rewrite (cas_written_get c st Hs). reflexivity.
     - destruct (str_eqb (H c') (H c)) eqn:E.
       + apply str_eqb_eq, H_inj in E. subst; reflexivity.
       + rewrite (cas_written_get c st Hs). reflexivity.
+  Qed.
+
+  (* the guard is exact: with a directory at the path the restore fails *)
+  Theorem file_restore_impossible c x st dest :
+    file_restore_possible dest = false ->
+    let '(st', m) := file_write H c x st in
+    file_load H m st' dest = Error.
+  Proof.
+    intro Hp. unfold file_write, file_load.
+    destruct dest as [| |c' x'|es]; cbn [file_restore_possible] in Hp; try discriminate. reflexivity.
   Qed.
 
   (* ---------------- directory outputs *)
@@ -567,7 +593,7 @@ Section Injective.
   Proof.
     intros Hwf Hs Hd m. unfold fetch_tree.
     rewrite cas_written_get by (apply cas_put_files_sound, Hs).
-    rewrite deser_ser. unfold Tree.load_tree_msg.
+    rewrite deser_ser, load_tree_msg_spec.
     destruct (load_dir_ok (map (fun c => (child_key c, c)) (tm_children m))
                 (cas_put (H (ser_tree m)) (ser_tree m) (cas_put_files H (files_of (Dir es)) st))
                 (Dir es) Hwf es eq_refl maxdepth Hd) as [es' [Hn Hl]].
@@ -669,21 +695,27 @@ End Injective.
    with the concrete injective instance Hid / enc_dir / enc_tree / dec_tree *)
 Definition s1 (c : ascii) : str := [c].
 
-(* a cached executable restored into an absent path is not executable *)
-Theorem file_roundtrip_refuted_exec :
-  exists c x st dest,
-    let '(st', d) := file_write Hid c x st in
-    file_load Hid d st' dest <> Done (File c x) /\ file_load Hid d st' dest = Done (File c false) /\ x = true /\ dest = DAbsent.
-Proof. exists (s1 "x"), true, [], DAbsent. vm_compute. repeat split; congruence. Qed.
+(* the former refutation witness (C06-F1: a cached executable restored into an absent path came
+   back non-executable): it now comes back executable, also over a non-executable file with the
+   same or with other content; and a non-executable one loses a stale exec bit *)
+Theorem file_roundtrip_exec_witness :
+  let '(st', m) := file_write Hid (s1 "x") true [] in
+  file_load Hid m st' DAbsent = Done (File (s1 "x") true) /\
+  file_load Hid m st' DParentAbsent = Done (File (s1 "x") true) /\
+  file_load Hid m st' (DFile (s1 "x") false) = Done (File (s1 "x") true) /\
+  file_load Hid m st' (DFile (s1 "y") false) = Done (File (s1 "x") true) /\
+  (let '(st2, m2) := file_write Hid (s1 "x") false [] in
+   file_load Hid m2 st2 (DFile (s1 "x") true) = Done (File (s1 "x") false)).
+Proof. vm_compute. repeat split. Qed.
 
 (* (until bb649a3 a restore into a path whose parent directory is missing failed; the code now
-   creates the parent, the model follows, and the case is covered by file_roundtrip_guarded) *)
+   creates the parent, the model follows, and the case is covered by file_roundtrip) *)
 Theorem file_roundtrip_parent_absent :
-  forall c st, cas_sound Hid st ->
-    let '(st', d) := file_write Hid c false st in
-    file_load Hid d st' DParentAbsent = Done (File c false).
+  forall c x st, cas_sound Hid st ->
+    let '(st', m) := file_write Hid c x st in
+    file_load Hid m st' DParentAbsent = Done (File c x).
 Proof.
-  intros c st Hs. apply (file_roundtrip_guarded Hid (fun x y E => E) c false st DParentAbsent Hs); reflexivity.
+  intros c x st Hs. apply (file_roundtrip Hid (fun x y E => E) c x st DParentAbsent Hs); reflexivity.
 Qed.
 
 (* a restore over a directory sitting at the path fails *)
@@ -693,24 +725,33 @@ Theorem file_roundtrip_refuted_directory :
     file_load Hid d st' (DDir []) = Error.
 Proof. exists (s1 "x"), false, []. vm_compute. reflexivity. Qed.
 
-(* flat directory, one file, its blob lost from the cache: the restore never returns *)
+(* flat directory, one file, its blob lost from the cache (the former refutation witness, C04-F2:
+   the restore never returned): the restore returns an error *)
 Definition flat_tree : node := Dir [(s1 "a", File (s1 "x") false)].
-Theorem restore_terminates_refuted :
-  exists t st,
-    wf_tree t /\
-    match write_tree Hid enc_dir enc_tree t st with
-    | Some (st', ref) =>
-        load_tree Hid enc_dir enc_tree dec_tree max_depth ref (cas_del (Hid (s1 "x")) st') DAbsent = Stuck
-    | None => False
-    end.
+Theorem restore_flat_missing_blob_returns :
+  wf_tree flat_tree /\
+  match write_tree Hid enc_dir enc_tree flat_tree [] with
+  | Some (st', ref) =>
+      load_tree Hid enc_dir enc_tree dec_tree max_depth ref (cas_del (Hid (s1 "x")) st') DAbsent = Error
+  | None => False
+  end.
 Proof.
-  exists flat_tree, []. split.
+  split.
   - simpl. split; [repeat constructor; simpl; tauto|]. repeat split; try discriminate.
     simpl. intros [E|[]]. discriminate.
   - vm_compute. reflexivity.
 Qed.
 
-(* the same directory with one (empty) sub-directory next to the file: capacity 1, the call returns an error *)
+(* two files, both blobs lost: more failing downloads than the channel holds, still an error *)
+Theorem restore_two_missing_blobs_returns :
+  match write_tree Hid enc_dir enc_tree (Dir [(s1 "a", File (s1 "x") false); (s1 "b", File (s1 "y") true)]) [] with
+  | Some (st', ref) =>
+      load_tree Hid enc_dir enc_tree dec_tree max_depth ref (cas_del (Hid (s1 "y")) (cas_del (Hid (s1 "x")) st')) DAbsent = Error
+  | None => False
+  end.
+Proof. vm_compute. reflexivity. Qed.
+
+(* the same directory with one (empty) sub-directory next to the file: an error as well (it already was before the repair) *)
 Theorem restore_one_subdir_returns :
   match write_tree Hid enc_dir enc_tree (Dir [(s1 "a", File (s1 "x") false); (s1 "d", Dir [])]) [] with
   | Some (st', ref) =>
